@@ -6,6 +6,7 @@ import (
 	"fmt"
 	"log/slog"
 	"path/filepath"
+	"slices"
 	"sync"
 
 	"reduction.dev/reduction/connectors"
@@ -38,6 +39,12 @@ type storeState struct {
 	completedSnapshots []*jobSnapshot
 	pendingSnapshot    *jobSnapshot
 	checkpointID       uint64 // The last used, monotonically increasing checkpoint ID
+
+	// IDs of completed savepoint checkpoints whose savepoint artifact has not
+	// been written yet. The artifact is copied from the operators' checkpoint
+	// files, so the operators must retain these checkpoints even when a later
+	// checkpoint completes in the meantime.
+	savepointsInProgress []uint64
 }
 
 type NewStoreParams struct {
@@ -187,9 +194,26 @@ func (s *Store) finishSnapshot(snap *jobSnapshot) {
 		panic("only one source splitter is suppported")
 	}
 	snap.splitterState = s.sourceSplitters[0].Checkpoint()
+	if snap.isSavepoint {
+		s.state.savepointsInProgress = append(s.state.savepointsInProgress, snap.id)
+	}
 
 	go func() {
 		uri, err := s.finishSnapshotAsync(snap)
+		if snap.isSavepoint {
+			s.stateMu.Lock()
+			s.state.savepointsInProgress = slices.DeleteFunc(s.state.savepointsInProgress, func(id uint64) bool { return id == snap.id })
+			superseded := !slices.Contains(s.state.completedSnapshots, snap)
+			s.stateMu.Unlock()
+			// The job snapshot file of a savepoint checkpoint is kept until the
+			// savepoint has been written; a later checkpoint completed meanwhile.
+			if superseded {
+				path := filepath.Join(s.checkpointsPath, "job-"+pathSegment(snap.id)+".snapshot")
+				if rmErr := s.fileStore.Remove(path); rmErr != nil {
+					s.log.Error("failed to remove superseded checkpoint file", "path", path, "err", rmErr)
+				}
+			}
+		}
 		if err != nil {
 			s.errChan <- err
 			return
@@ -235,10 +259,8 @@ func (s *Store) finishSnapshotAsync(snap *jobSnapshot) (uri string, err error) {
 			}
 			return uri, nil
 		}
+		// The file is removed by the caller once the savepoint has been written.
 		spURI, err := CreateSavepointArtifact(s.fileStore, s.savepointsPath, uri, snap)
-		if rmErr := s.fileStore.Remove(path); rmErr != nil {
-			s.log.Error("failed to remove superseded checkpoint file", "path", path, "err", rmErr)
-		}
 		if err != nil {
 			return "", err
 		}
@@ -250,6 +272,9 @@ func (s *Store) finishSnapshotAsync(snap *jobSnapshot) (uri string, err error) {
 	if len(s.state.completedSnapshots) > 0 {
 		obsoleteIDs := make([]uint64, 0, len(s.state.completedSnapshots))
 		for _, oldSnap := range s.state.completedSnapshots {
+			if slices.Contains(s.state.savepointsInProgress, oldSnap.id) {
+				continue // still the source of a savepoint, removed when that is written
+			}
 			obsoleteIDs = append(obsoleteIDs, oldSnap.id)
 		}
 
@@ -264,10 +289,17 @@ func (s *Store) finishSnapshotAsync(snap *jobSnapshot) (uri string, err error) {
 			}
 		}()
 
-		// Notify subscribers of new list of checkpoints to retain (just the
-		// completed one). Announcements are sent one at a time and never for a
+		// Notify subscribers of new list of checkpoints to retain: the completed
+		// one and older savepoint checkpoints that are still being copied into
+		// their savepoint. Announcements are sent one at a time and never for a
 		// checkpoint older than one already announced.
 		if s.retainedCheckpointsUpdated != nil {
+			retained := []uint64{snap.id}
+			for _, id := range s.state.savepointsInProgress {
+				if id < snap.id {
+					retained = append(retained, id)
+				}
+			}
 			go func() {
 				s.notifyMu.Lock()
 				defer s.notifyMu.Unlock()
@@ -275,7 +307,7 @@ func (s *Store) finishSnapshotAsync(snap *jobSnapshot) (uri string, err error) {
 					return
 				}
 				s.lastAnnouncedID = snap.id
-				s.retainedCheckpointsUpdated <- []uint64{snap.id}
+				s.retainedCheckpointsUpdated <- retained
 			}()
 		}
 	}
